@@ -84,6 +84,8 @@ pub const FAIL_KINDS: &[&str] = &[
     "label-twice-in-macro",
     "unsupported-directive",
     "errors-in-two-memories",
+    "avra-macro-local-label",
+    "broken-unused-macros",
 ];
 
 /// Devices used by generated programs: (name, forbids mul, forbids jmp, avr8l, flash words, ram, eeprom)
@@ -548,7 +550,14 @@ impl<'a> Gen<'a> {
         }
         let n = free[0].clone();
         let np = if self.opts.macro_heavy { 2 } else { self.r.usize(3) };
+        // now and then a macro with twelve parameters (`@1` is a prefix of `@10` and `@11`)
+        let np = if self.r.chance(1, 12) { 12 } else { np };
         let mut l = vec![format!(".macro {}", n)];
+        if np == 12 {
+            l.push("    ldi @0, low(@10+@11)".to_string());
+            l.push("    subi @0, @1".to_string());
+            l.push("    cpi @0, @2*@9".to_string());
+        }
         self.no_alias = true;
         for _ in 0..self.r.range(1, 3) {
             match (np, self.r.below(4)) {
@@ -614,6 +623,7 @@ impl<'a> Gen<'a> {
         }
         self.words_upper += 8;
         let line = match np {
+            12 => format!("    {} r{}, {}", n, self.r.range(16, 31), (0..11).map(|_| self.num(15)).collect::<Vec<_>>().join(", ")),
             0 => format!("    {}", n),
             1 => format!("    {} r{}", n, self.r.range(16, 31)),
             // the second argument is re-rendered as text when the body is expanded: plain
@@ -875,6 +885,31 @@ pub fn gen(r: &mut Rng, pool: &Pool, opts: &GenOpts) -> Program {
                     vec![b, a]
                 }
             }
+            // avra's `_%` (number of the expansion) in a label of a macro body, referred to from
+            // outside: refused today; a counter behind it must not outlive the build
+            "avra-macro-local-label" => {
+                if g.r.chance(1, 2) {
+                    // (the first expansion is number 0 in some assemblers, 1 in others)
+                    vec![
+                        Node::Macro(vec![format!(".macro wq{}", pool.tag), format!("wl{}_%:", pool.tag), "    dec r16".to_string(), format!("    brne wl{}_%", pool.tag), ".endm".to_string()]),
+                        Node::Lines(vec![format!("    wq{}", pool.tag), format!("    rjmp wl{}_{}", pool.tag, g.r.below(2))]),
+                    ]
+                } else {
+                    // the generated name shows in an error: the label twice in one body
+                    vec![
+                        Node::Macro(vec![format!(".macro wq{}", pool.tag), format!("wl{}_%:", pool.tag), "    dec r16".to_string(), format!("wl{}_%:", pool.tag), format!("    brne wl{}_%", pool.tag), ".endm".to_string()]),
+                        Node::Lines(vec![format!("    wq{}", pool.tag)]),
+                    ]
+                }
+            }
+            // two macros that are never called and hold a line nobody can parse: fine today
+            // (bodies are only looked at when expanded); a tree that validates them must name
+            // the same one every time
+            "broken-unused-macros" => vec![
+                Node::Macro(vec![format!(".macro bad{}a", pool.tag), " %% not assembler %%".to_string(), ".endm".to_string()]),
+                Node::Macro(vec![format!(".macro bad{}b", pool.tag), " 1: jmp 1b".to_string(), ".endm".to_string()]),
+                Node::Macro(vec![format!(".macro bad{}c", pool.tag), "    ldi r16,, 3".to_string(), ".endm".to_string()]),
+            ],
             "panics-today" => vec![Node::Lines(vec![match g.r.below(3) {
                 0 => format!("    ldi r{}, 1", 32 + g.r.below(68)),
                 1 => format!(".equ big{} = 9999999999999999999{}", pool.tag, g.r.below(100000)),
